@@ -37,6 +37,10 @@ const (
 	rkTimeout
 	rkHandlerErr
 	rkPanic
+	rkPanicNil    // panic with a nil value: recover() answers nil (go 1.19 semantics of the module)
+	rkPanicErr    // panic with an error value
+	rkPanicCustom // panic with a value of a user type
+	rkGoexit      // runtime.Goexit in the handler: deferred calls run, no panic at all
 )
 const (
 	wkErr = iota
@@ -60,7 +64,7 @@ func (l label) internal() bool {
 	return l.kind == aSendStep || l.kind == aSendLost || l.kind == aRecvEnd || l.kind == lAccept
 }
 
-var rkNames = []string{"RErr", "RTimeout", "RHandlerErr", "RPanic"}
+var rkNames = []string{"RErr", "RTimeout", "RHandlerErr", "RPanic", "RPanicNil", "RPanicErr", "RPanicCustom", "RGoexit"}
 var wkNames = []string{"WErr", "WTimeout"}
 var trNames = []string{"Pipe", "Tcp"}
 
@@ -228,7 +232,7 @@ func sessStep(s sessM, l label) (sessM, bool, bool) {
 		}
 		return s, false, true
 	case aRecvFault:
-		if (l.k == rkHandlerErr || l.k == rkPanic) && !s.peerOpen {
+		if l.k != rkErr && l.k != rkTimeout && !s.peerOpen {
 			return s, false, false
 		}
 		s.rcause = true
